@@ -9,7 +9,7 @@ from __future__ import annotations
 import ast
 from typing import Callable, Dict, List, Optional, Set, Tuple
 
-from ..astutil import Origins, call_name, const_num, names_in
+from ..astutil import Origins, call_name, const_num, expand_locals, names_in
 from ..cfg import Conditions, ReachingDefs
 from ..loader import FuncInfo, Program, enclosing_stmt, parent, short, walk_own
 from ..report import BAD, INFO, OK, UNDET, Instance
@@ -49,6 +49,76 @@ def _ret_true_tuple(r: ast.Return) -> bool:
 # ---------------------------------------------------------------------------------------------
 
 
+def _slot_of(fi: FuncInfo, e: ast.AST) -> Optional[int]:
+    """Affine slot (0..5 = a b c d e f) an expression names: a local bound by the last six-component unpack, `M.a .. M.f`,
+    `M.xoff/.yoff`, or `M[k]`."""
+    if isinstance(e, ast.Name):
+        last: Dict[str, int] = {}
+        for n in walk_own(fi.node):
+            if isinstance(n, ast.Assign) and isinstance(n.targets[0], ast.Tuple) and len(n.targets[0].elts) >= 6:
+                for i, t in enumerate(n.targets[0].elts[:6]):
+                    if isinstance(t, ast.Name):
+                        last[t.id] = i
+        return last.get(e.id)
+    if isinstance(e, ast.Attribute) and e.attr in ("a", "b", "c", "d", "e", "f"):
+        return "abcdef".index(e.attr)
+    if isinstance(e, ast.Attribute) and e.attr in ("xoff", "yoff"):
+        return 2 if e.attr == "xoff" else 5
+    if isinstance(e, ast.Subscript) and const_num(e.slice) is not None:
+        return int(const_num(e.slice))  # type: ignore[arg-type]
+    return None
+
+
+def _axes_covered(fi: FuncInfo, cs: List[Cond], tol: str, scale: bool) -> Set[int]:
+    """Affine slots that the path conditions `cs` bound with tolerance `tol`.
+    scale=True : |slot| is within tol of 1  - `abs(abs(s) - 1) > tol` known false / `<= tol` known true, per term or through
+                 any()/all() over a tuple of terms.
+    scale=False: slot is a near-integer      - `is_almost_int(t, tol)` known true, per term or through all() over a tuple."""
+    cov: Set[int] = set()
+
+    def terms_of(gen: ast.AST) -> List[ast.AST]:
+        if isinstance(gen, (ast.GeneratorExp, ast.ListComp)) and len(gen.generators) == 1 and isinstance(gen.generators[0].iter, (ast.Tuple, ast.List)):
+            return list(gen.generators[0].iter.elts)
+        return []
+
+    def scale_cmp(c: ast.AST, holds: bool, subjects: List[ast.AST]) -> None:
+        # c: Compare  <deviation> OP tol ; it says "within" when (OP in <,<= and holds) or (OP in >,>= and not holds)
+        if not (isinstance(c, ast.Compare) and len(c.ops) == 1 and isinstance(c.comparators[0], ast.Name) and c.comparators[0].id == tol and has_call(c.left, "abs")):
+            return
+        within = (isinstance(c.ops[0], (ast.Lt, ast.LtE)) and holds) or (isinstance(c.ops[0], (ast.Gt, ast.GtE)) and not holds)
+        if not within:
+            return
+        for t in subjects or [x for x in ast.walk(c.left) if isinstance(x, (ast.Name, ast.Attribute, ast.Subscript))]:
+            k = _slot_of(fi, t)
+            if k is not None:
+                cov.add(k)
+
+    for e, p in cs:
+        if scale:
+            if isinstance(e, ast.Call) and call_name(e) in ("any", "all") and e.args:
+                g = e.args[0]
+                if isinstance(g, (ast.GeneratorExp, ast.ListComp)):
+                    # not any(dev > tol ...)  /  all(dev <= tol ...)
+                    holds_each = (call_name(e) == "all" and p) or (call_name(e) == "any" and not p)
+                    if holds_each or (call_name(e) == "any" and not p):
+                        scale_cmp(g.elt, call_name(e) == "all", terms_of(g))
+            else:
+                scale_cmp(e, p, [])
+        else:
+            if p and isinstance(e, ast.Call) and call_name(e) == "is_almost_int" and _arg_is(e, 1, "tol", tol):
+                k = _slot_of(fi, e.args[0])
+                if k is not None:
+                    cov.add(k)
+            if p and isinstance(e, ast.Call) and call_name(e) == "all" and e.args and isinstance(e.args[0], (ast.GeneratorExp, ast.ListComp)):
+                g = e.args[0]
+                if isinstance(g.elt, ast.Call) and call_name(g.elt) == "is_almost_int" and _arg_is(g.elt, 1, "tol", tol):
+                    for t in terms_of(g):
+                        k = _slot_of(fi, t)
+                        if k is not None:
+                            cov.add(k)
+    return cov
+
+
 def paste_eligibility(prog: Program) -> List[Instance]:
     """C10: paste is reported only behind all four eligibility guards and only on the linear branch."""
     out: List[Instance] = []
@@ -64,15 +134,8 @@ def paste_eligibility(prog: Program) -> List[Instance]:
         guards = {
             "scale-translation-only": any(p and has_call(e, "is_affine_st", lambda c: _arg_is(c, 0, "A", A)) and not isinstance(e, ast.BoolOp) for e, p in cs),
             "near-integer-scale": any(p and isinstance(e, ast.Call) and call_name(e) == "is_almost_int" and _arg_is(e, 1, "tol", "stol") for e, p in cs),
-            "unit-scale-after-shrink": any(
-                ((not p) and isinstance(e, ast.Call) and call_name(e) == "any" and "stol" in names_in(e) and has_call(e, "abs"))
-                or (p and isinstance(e, ast.Call) and call_name(e) == "all" and "stol" in names_in(e) and has_call(e, "abs"))
-                for e, p in cs
-            ),
-            "whole-pixel-translation": any(
-                p and isinstance(e, ast.Call) and call_name(e) == "all" and has_call(e, "is_almost_int", lambda c: _arg_is(c, 1, "tol", "ttol")) and _slot_names(cp, (2, 5)) <= names_in(e)
-                for e, p in cs
-            ),
+            "unit-scale-after-shrink": {0, 4} <= _axes_covered(cp, cs, "stol", scale=True),
+            "whole-pixel-translation": {2, 5} <= _axes_covered(cp, cs, "ttol", scale=False),
         }
         for g, ok in guards.items():
             out.append(Instance("R-GUARDSEQ", f"{cp.qual}#paste:{g}", OK if ok else BAD,
@@ -121,23 +184,35 @@ def paste_eligibility(prog: Program) -> List[Instance]:
         defs = rd.reaching(r, pv.id)
         bad = []
         n_cp = 0
+        def verdict_call(val: ast.AST, kind: str, st: Optional[ast.AST]) -> bool:
+            """val is `_can_paste(...)` taken at element 0 (by unpacking or by `[0]`), on the same-CRS branch, tolerances wired."""
+            nonlocal n_cp
+            call = val
+            first = kind.startswith("unpack[0/")
+            if isinstance(val, ast.Subscript) and const_num(val.slice) == 0:
+                call, first = val.value, True
+            if not (isinstance(call, ast.Call) and cp in prog.resolve_call(call, crr)):
+                return False
+            n_cp += 1
+            if not first:
+                bad.append(f"{short(st)} (takes the wrong element of _can_paste's result)")
+            cs = conds_at(cond2, st) if st is not None else []
+            lin = any(isinstance(e, ast.Compare) and "linear" in short(e) and ((isinstance(e.ops[0], ast.Is) and not p) or (isinstance(e.ops[0], ast.IsNot) and p)) for e, p in cs)
+            if not lin:
+                bad.append(f"{short(st)} (not restricted to the same-CRS branch)")
+            for kw in ("ttol", "stol"):
+                kv = next((k.value for k in call.keywords if k.arg == kw), None)
+                if not (isinstance(kv, ast.Name) and kv.id == kw):
+                    bad.append(f"{short(call)} ({kw} not forwarded as {kw})")
+            return True
+
         for name, st, val, kind in defs:
             if isinstance(val, ast.Constant) and val.value is False:
                 continue
-            if isinstance(val, ast.Call) and cp in prog.resolve_call(val, crr):
-                n_cp += 1
-                # must be first element of the unpacked result, called under tight_ok, on the linear side
-                if not kind.startswith("unpack[0/"):
-                    bad.append(f"{short(st)} (takes the wrong element of _can_paste's result)")
-                cs = conds_at(cond2, st) if st is not None else []
-                lin = any(isinstance(e, ast.Compare) and "linear" in short(e) and ((isinstance(e.ops[0], ast.Is) and not p) or (isinstance(e.ops[0], ast.IsNot) and p)) for e, p in cs)
-                if not lin:
-                    bad.append(f"{short(st)} (not restricted to the same-CRS branch)")
-                # tolerances wired straight
-                for kw in ("ttol", "stol"):
-                    kv = next((k.value for k in val.keywords if k.arg == kw), None)
-                    if not (isinstance(kv, ast.Name) and kv.id == kw):
-                        bad.append(f"{short(val)} ({kw} not forwarded as {kw})")
+            if verdict_call(val, kind, st):
+                continue
+            # `tight_ok and _can_paste(...)[0]`: a conjunction can only narrow the verdict
+            if isinstance(val, ast.BoolOp) and isinstance(val.op, ast.And) and any(verdict_call(v, "", st) for v in val.values):
                 continue
             bad.append(short(st) if st is not None else f"{name}:{kind}")
         ok = not bad and n_cp >= 1
@@ -159,9 +234,24 @@ def paste_eligibility(prog: Program) -> List[Instance]:
             rs_name = kv.id
     rs_uses = []
     clamped = None
-    for n in walk_own(crr.node):
+    split_out = False
+    for g, n in prog.closure_nodes(crr):
         if isinstance(n, ast.Call) and call_name(n) in ("zoom_out", "compute_zoom_out", "scaled_down_shape", "scaled_up_roi", "scale"):
-            if rs_name is not None and rs_name in names_in(n):
+            # in a helper the factor arrives as a parameter: the one the caller binds the reported read_shrink to
+            nm_here = rs_name
+            if g is not crr and rs_name is not None:
+                nm_here = None
+                for cs_g, call_g in prog.callers_of(g):
+                    if cs_g is crr:
+                        pos = [a.arg for a in g.positional_params()]
+                        for i, a in enumerate(call_g.args):
+                            if isinstance(a, ast.Name) and a.id == rs_name and i < len(pos):
+                                nm_here = pos[i]
+                        for k in call_g.keywords:
+                            if isinstance(k.value, ast.Name) and k.value.id == rs_name and k.arg:
+                                nm_here = k.arg
+                split_out = True
+            if nm_here is not None and nm_here in names_in(n):
                 rs_uses.append("overview" if call_name(n) in ("zoom_out", "compute_zoom_out", "scaled_down_shape") else call_name(n))
                 if call_name(n) in ("zoom_out", "compute_zoom_out"):
                     clamped = n
@@ -170,6 +260,9 @@ def paste_eligibility(prog: Program) -> List[Instance]:
     out.append(Instance("R-GUARDSEQ", f"{crr.qual}#paste:overview-of-empty", BAD if clamped is not None else OK,
                         f"`{short(clamped)}`: the overview shape comes from zoom_out, which is at least 1x1 - an empty source gets non-empty planned regions" if clamped is not None
                         else "overview shape for the shrink>1 paste maps 0 -> 0 (scaled_down_shape)", crr.where(clamped) if clamped is not None else crr.where()))
+    if not rs_uses:
+        out.append(Instance("R-GUARDSEQ", f"{crr.qual}#paste:one-shrink-factor", UNDET, "no overview / scale / scale-up call using the reported read_shrink found in compute_reproject_roi or its private helpers", crr.where()))
+        return out
     out.append(Instance("R-GUARDSEQ", f"{crr.qual}#paste:one-shrink-factor", OK if ok else BAD,
                         "the reported read_shrink is the factor used by zoom_out, Affine.scale(1/.) and scaled_up_roi" if ok else f"the reported read_shrink is not the one factor used for overview geobox, affine and region scale-up (used by: {rs_uses})", crr.where()))
     return out
@@ -184,24 +277,38 @@ def grid_compat(prog: Program) -> List[Instance]:
     for r in rets:
         cs = conds_at(cond, r)
         iso = [e for e, p in cs if (not p) is False and False]  # placeholder
-        # the four isclose tests hold (true) at the return
+        # the four isclose tests hold (true) at the return; a term of the linear part is named by its slot, however it is
+        # spelled: a name bound by the six-component unpack, `M.a/.b/.d/.e`, or `M[k]`
+        slots = _affine_unpack_slots(pt)
+
+        def _slot(e: ast.AST) -> Optional[int]:
+            if isinstance(e, ast.Name):
+                return slots.get(e.id)
+            if isinstance(e, ast.Attribute) and e.attr in ("a", "b", "c", "d", "e", "f"):
+                return "abcdef".index(e.attr)
+            if isinstance(e, ast.Subscript) and const_num(e.slice) is not None:
+                return int(const_num(e.slice))  # type: ignore[arg-type]
+            return None
+
         closes = set()
+        shown = []
         for e, p in cs:
             if p and isinstance(e, ast.Call) and call_name(e) == "isclose" and len(e.args) >= 2:
-                closes.add((short(e.args[0]), const_num(e.args[1])))
-        need = {("sx", 1), ("sy", 1), ("z1", 0), ("z2", 0)}
-        # names come from the affine unpack: check by slot instead of by name
-        slots = _affine_unpack_slots(pt)
-        want = set()
-        for nm, slot in slots.items():
-            if slot in (0, 4):
-                want.add((nm, 1))
-            elif slot in (1, 3):
-                want.add((nm, 0))
-        ok = bool(want) and want <= closes
+                closes.add((_slot(e.args[0]), const_num(e.args[1])))
+                shown.append((short(e.args[0]), const_num(e.args[1])))
+        need = {(0, 1), (4, 1), (1, 0), (3, 0)}
+        ok = need <= closes
+        other_guard = any(
+            isinstance(n, ast.If) and any(isinstance(x, ast.Raise) for x in ast.walk(n)) and not has_call(n.test, "isclose")
+            and any(isinstance(x, ast.Call) and call_name(x) in ("is_affine_st", "allclose", "all", "any", "almost_equals") for x in ast.walk(n.test))
+            for n in walk_own(pt.node)
+        )
+        if not ok and not closes and other_guard:
+            out.append(Instance("R-GUARDSEQ", f"{pt.qual}#grid:isclose-guard", UNDET, "grid compatibility is tested in a form this clause does not read (no numpy.isclose path conditions)", pt.where(r)))
+            continue
         out.append(Instance("R-GUARDSEQ", f"{pt.qual}#grid:isclose-guard", OK if ok else BAD,
-                            f"translation is returned only when scale==1 and shear==0 on both axes ({sorted(closes)})" if ok
-                            else f"translation can be returned although the pixel-to-pixel transform is not a pure translation: need {sorted(want)}, guarded {sorted(closes)}", pt.where(r)))
+                            f"translation is returned only when scale==1 and shear==0 on both axes ({sorted(shown)})" if ok
+                            else f"translation can be returned although the pixel-to-pixel transform is not a pure translation: need slots {sorted(need)}, guarded {sorted(shown)}", pt.where(r)))
     # the failing side raises ValueError
     for n in walk_own(pt.node):
         if isinstance(n, ast.If) and has_call(n.test, "isclose"):
@@ -382,6 +489,12 @@ def finite_filter(prog: Program) -> List[Instance]:
             if "isfinite" in deps_txt or "isfinite" in short(first):
                 rebinding = n
                 mask_expr = first
+    if rebinding is None:
+        # the filter may have been moved into a helper: `pts = _finite_points(pts)`
+        for n in walk_own(f.node):
+            if isinstance(n, ast.Assign) and isinstance(n.targets[0], ast.Name) and n.targets[0].id == pts and isinstance(n.value, ast.Call) and pts in names_in(n.value) \
+                    and any(isinstance(x, ast.Call) and call_name(x) == "isfinite" for _g, x in prog.closure_nodes(f, n.value, private_only=False)):
+                rebinding = n
     ok = rebinding is not None and top_index(rebinding) < first_env
     out.append(Instance("R-GUARDSEQ", f"{f.qual}#finite:filter-before-envelope", OK if ok else BAD,
                         "non-finite points are masked out before the envelope is taken" if ok else "envelope (min/max) is computed without first removing non-finite points: one NaN/inf poisons the region", f.where()))
@@ -491,7 +604,8 @@ def overwrite_guard(prog: Program) -> List[Instance]:
         a = c.args[1] if len(c.args) > 1 else None
         ok = isinstance(a, ast.Name) and a.id == "overwrite" and isinstance(c.args[0], ast.Name) and c.args[0].id == "dst"
         cs = conds_at(cond, enclosing_stmt(c))
-        ok = ok and any(isinstance(e, ast.Compare) and ":mem:" in short(e) for e, p in cs)
+        # unconditional, or skipped only for the in-memory destination (the test may go through a local: to_mem = dst == ":mem:")
+        ok = ok and (not cs or any(":mem:" in short(expand_locals(wl.node, e), 200) for e, p in cs))
     out.append(Instance("R-GUARDSEQ", f"{wl.qual}#overwrite:checked-before-copy", OK if ok and copies else BAD,
                         "file destination goes through check_write_path(dst, overwrite) before layers are written" if ok and copies else "write_cog_layers does not check the destination with the caller's overwrite flag", wl.where()))
     return out
@@ -570,17 +684,40 @@ def nonfinite_first(prog: Program) -> List[Instance]:
         f = prog.func(q)
         x = f.param_names()[0]
         first = next((s for s in f.node.body if not (isinstance(s, ast.Expr) and isinstance(s.value, ast.Constant))), None)
-        ok = isinstance(first, ast.If) and isinstance(first.test, ast.UnaryOp) and isinstance(first.test.op, ast.Not) and has_call(first.test, "isfinite", lambda c: c.args and short(c.args[0]) == x)
-        rv = first.body[0].value if ok and isinstance(first.body[0], ast.Return) else None
-        if ok:
+        # path-condition form: every arithmetic consumer of x (fmod / modf / int / split_float / floor / round / trunc) is
+        # reached only with isfinite(x) known true, and on the non-finite path the documented value is returned
+        cond = Conditions(f.body)
+        consumers = [n for n in walk_own(f.node) if isinstance(n, ast.Call) and call_name(n) in ("fmod", "modf", "int", "split_float", "floor", "ceil", "round", "trunc", "divmod")
+                     and any(isinstance(a, ast.Name) and a.id == x for a in ast.walk(n))]
+
+        def finite_known(st_: Optional[ast.AST]) -> bool:
+            return st_ is not None and any(p and has_call(e, "isfinite", lambda c: c.args and short(c.args[0]) == x) and isinstance(e, ast.Call) for e, p in conds_at(cond, st_))
+
+        unguarded = [n for n in consumers if not finite_known(enclosing_stmt(n))]
+        # value returned when x is not finite: returns reached with isfinite(x) known false, or not known true
+        def finite_false(st_: ast.AST) -> bool:
+            return any((not p) and isinstance(e, ast.Call) and has_call(e, "isfinite", lambda c: c.args and short(c.args[0]) == x) for e, p in conds_at(cond, st_))
+
+        nf_rets = [r for r in walk_own(f.node) if isinstance(r, ast.Return) and r.value is not None and finite_false(r)]
+        rebound = any(isinstance(n, ast.Name) and n.id == x and isinstance(n.ctx, ast.Store) for n in walk_own(f.node))
+        if not nf_rets and not rebound:
+            nf_rets = [r for r in walk_own(f.node) if isinstance(r, ast.Return) and r.value is not None and not finite_known(r)]
+
+        def is_want(rv: Optional[ast.AST]) -> bool:
             if want == "x":
-                ok = isinstance(rv, ast.Name) and rv.id == x
-            elif want == "False":
-                ok = isinstance(rv, ast.Constant) and rv.value is False
-            else:
-                ok = isinstance(rv, ast.Tuple) and len(rv.elts) == 2 and short(rv.elts[0]) == x and const_num(rv.elts[1]) == 0
+                return isinstance(rv, ast.Name) and rv.id == x
+            if want == "False":
+                return isinstance(rv, ast.Constant) and rv.value is False
+            return isinstance(rv, ast.Tuple) and len(rv.elts) == 2 and short(rv.elts[0]) == x and const_num(rv.elts[1]) == 0
+
+        if not consumers:
+            out.append(Instance("R-GUARDSEQ", f"{q}#nonfinite-first", UNDET, f"no arithmetic consumer of {x} recognised", f.where(first)))
+            continue
+        ok = not unguarded and bool(nf_rets) and all(is_want(r.value) for r in nf_rets)
         out.append(Instance("R-GUARDSEQ", f"{q}#nonfinite-first", OK if ok else BAD,
-                            f"non-finite {x} handled first (returns {want})" if ok else f"first statement is `{short(first, 60)}`: non-finite input reaches fmod/int()", f.where(first)))
+                            f"non-finite {x} never reaches the arithmetic and returns {want}" if ok else
+                            (f"`{short(unguarded[0], 50)}` is reached without isfinite({x}) known true: non-finite input reaches fmod/int()" if unguarded
+                             else f"the non-finite path returns `{short(next((r.value for r in nf_rets if not is_want(r.value)), None), 40)}` instead of {want}"), f.where(unguarded[0] if unguarded else first)))
     return out
 
 
